@@ -5,6 +5,7 @@ package proxycore
 
 import (
 	"io"
+	"sync"
 
 	"github.com/datastax/go-cassandra-native-protocol/frame"
 )
@@ -46,4 +47,36 @@ func VerifStallWriter(c *ClientConn) (release func()) {
 // maybePrepareAndExecute does after an UNPREPARED response.
 func VerifReprepare(c *ClientConn, prepare *frame.RawFrame, orig Request) error {
 	return c.Send(&prepareRequest{prepare: prepare, origRequest: orig})
+}
+
+// VerifLeastBusy builds a pool whose slot i holds a connection with inflight[i] requests in flight (no connection when
+// negative) and returns the index of the slot leastBusyConn picks, -1 when it returns nil.
+func VerifLeastBusy(inflight []int32) int {
+	p := &connPool{conns: make([]*ClientConn, len(inflight)), connsMu: &sync.RWMutex{}}
+	for i, n := range inflight {
+		if n >= 0 {
+			p.conns[i] = &ClientConn{inflight: n}
+		}
+	}
+	c := p.leastBusyConn()
+	if c == nil {
+		return -1
+	}
+	for i := range p.conns {
+		if p.conns[i] == c {
+			return i
+		}
+	}
+	return -2
+}
+
+// VerifPools reports, for every host key in the session's pool table, whether its pool is alive (not cancelled).
+func VerifPools(s *Session) map[string]bool {
+	out := map[string]bool{}
+	s.pools.Range(func(k, v interface{}) bool {
+		p, _ := v.(*connPool)
+		out[k.(string)] = p != nil && p.ctx.Err() == nil
+		return true
+	})
+	return out
 }
